@@ -24,6 +24,8 @@ import (
 //   R-decode-answered  the failure edge of decoding a request/raw message is answered (HTTP error,
 //                      JSON-RPC error) before the handler returns
 //   R-array-shape      result fields whose MCP shape is "array" cannot be marshalled as null
+//   R-queue-answered  on queue-answering transports (legacy SSE) every path after the dispatch hands a frame to the session queue
+//   R-error-passthrough / R-fresh-message  handler errors and response objects reach the wire unaltered / unshared
 func init() { Registry["C03"] = checkC03 }
 
 var msgTypes = []string{"JSONRPCRequest", "JSONRPCResponse", "JSONRPCError", "JSONRPCNotification"}
